@@ -13,29 +13,32 @@ Definition xsi_decision_eqb (a b : xsi_decision) : bool :=
   | _, _ => false
   end.
 
-(** The decision as a function of the four tests the code makes on (declared class,
+(** The decision as a function of the five tests the code makes on (declared class,
     newclass); [sup]/[sub] are the __orig__ of the declared class / of newclass:
       same     : sub is sup
       arr      : issubclass(sup, Array)
       subof    : issubclass(sub, sup)
-      samename : (namespace, type name) of newclass = (namespace, type name) of the declared class *)
-Definition xsi_table := bool -> bool -> bool -> bool -> xsi_decision.
+      samename : (namespace, type name) of newclass = (namespace, type name) of the declared class
+      cplx     : issubclass(sup, ComplexModelBase) *)
+Definition xsi_table := bool -> bool -> bool -> bool -> bool -> xsi_decision.
 
-Definition all_bool4 (f : bool -> bool -> bool -> bool -> bool) : bool :=
-  forallb (fun a => forallb (fun b => forallb (fun c => forallb (fun d => f a b c d)
-    [true; false]) [true; false]) [true; false]) [true; false].
+Definition all_bool5 (f : bool -> bool -> bool -> bool -> bool -> bool) : bool :=
+  forallb (fun a => forallb (fun b => forallb (fun c => forallb (fun d => forallb (fun e => f a b c d e)
+    [true; false]) [true; false]) [true; false]) [true; false]) [true; false].
 
 (** what the typing theorem needs of the table: an element is deserialised as [newclass]
-    only if newclass is a subclass of the declared class and the declared class is not an
-    Array (all Array(T) classes share the origin Array, so issubclass says nothing there) *)
+    only if newclass is a subclass of the declared class, the declared class is a complex
+    type (subclasses of primitives need not share the native type of their parent: Double
+    derives from Decimal, Uuid from Unicode) and not an Array (all Array(T) classes share the
+    origin Array, so issubclass says nothing there) *)
 Definition guard_ok (T : xsi_table) : bool :=
-  all_bool4 (fun same arr subof samename =>
-    negb (xsi_decision_eqb (T same arr subof samename) XNew) || (subof && negb arr)).
+  all_bool5 (fun same arr subof samename cplx =>
+    negb (xsi_decision_eqb (T same arr subof samename cplx) XNew) || (subof && negb arr && cplx)).
 
 (** what "a request that would need such a substitution is refused" needs of the table.
     The combination [same && negb subof] cannot occur (a class is a subclass of itself). *)
 Definition guard_strict (T : xsi_table) : bool :=
-  all_bool4 (fun same arr subof samename =>
+  all_bool5 (fun same arr subof samename cplx =>
     (same && negb subof)
     || negb (negb subof || (arr && negb samename))
-    || xsi_decision_eqb (T same arr subof samename) XReject).
+    || xsi_decision_eqb (T same arr subof samename cplx) XReject).
